@@ -3,8 +3,11 @@ with NO CrossHair and NO stub: real digest, real bins, real caches, real formatt
 stdin: JSON list of {prop, tier, name, args}; stdout: one `REPLAY <json>` line per item."""
 import importlib
 import json
+import os
 import sys
 import traceback
+
+ROOT = os.path.dirname(os.path.dirname(os.path.abspath(__file__)))
 
 
 def run_item(item, cache):
@@ -31,6 +34,11 @@ def run_item(item, cache):
         out["holds"] = False
         out["exc"] = "%s: %s" % (type(e).__name__, e)
         out["trace"] = traceback.format_exc()[-2500:]
+        # an exception raised BY harness code itself (innermost frame under /verif, e.g. a NameError in an oracle) is a harness error, not a finding
+        tb = traceback.extract_tb(e.__traceback__)
+        if tb and os.path.abspath(tb[-1].filename).startswith(ROOT + os.sep) and isinstance(e, (NameError, ImportError)) \
+                and not any("/inscripta/" in fr.filename for fr in tb):
+            out["harness_error"] = True
     return out
 
 
